@@ -94,7 +94,14 @@ func runDecIsolated(inputs [][]byte) []decResult {
 		}
 		return &worker{cmd, bufio.NewWriterSize(wc, 1<<20), bufio.NewReaderSize(rc, 1<<20)}
 	}
+	aborted := 0
 	for i, b := range inputs {
+		if aborted >= 6 {
+			// enough: every one of these is a violation; the rest is not run (a decoder that
+			// hangs on many inputs would keep the check busy for hours)
+			out[i] = decResult{class: "normal", res: "skipped"}
+			continue
+		}
 		if w == nil {
 			w = start()
 		}
@@ -116,6 +123,7 @@ func runDecIsolated(inputs [][]byte) []decResult {
 				w.cmd.Wait()
 				w = nil
 				out[i] = decResult{class: "process died (fatal error, e.g. out of memory)"}
+				aborted++
 				continue
 			}
 			var dr decResult
@@ -127,6 +135,7 @@ func runDecIsolated(inputs [][]byte) []decResult {
 			w.cmd.Wait()
 			w = nil
 			out[i] = decResult{class: "no result within 30 s"}
+			aborted++
 		}
 	}
 	if w != nil {
@@ -295,6 +304,9 @@ func suiteC07(c *Ctx) []Suite {
 			}
 			for i, b := range ins {
 				r := res[i]
+				if r.res == "skipped" {
+					continue
+				}
 				cs := Case{Nontrivial: true, Tags: []string{tags[i], "outcome:" + r.class}}
 				if len(b) <= 4096 && tags[i] != "valid-deep-nesting" && tags[i] != "valid-deep-with-leaves" { // printing is cubic in the nesting depth
 					cs.Op = "dec " + hx(b)
@@ -385,6 +397,11 @@ func runHistory(r *rand.Rand, steps int) (violation string, trace []string) {
 	log := func(f string, a ...interface{}) { h.steps = append(h.steps, fmt.Sprintf(f, a...)) }
 	newItem := func() {
 		n := genItem(r, GenOpt{MaxDepth: 3, MaxSlots: 4, PVar: 0.25})
+		if r.Intn(4) == 0 {
+			// an array with several variables among its values
+			k := arrayKinds[r.Intn(len(arrayKinds))]
+			n = genArray(r, &GenOpt{MaxSlots: 5, PVar: 0.6, names: &nameGen{}}, k.k, k.w)
+		}
 		var it ast.ItemNode
 		if pan, _ := safely(func() { it = n.Build() }); pan {
 			return
@@ -494,6 +511,14 @@ func runHistory(r *rand.Rand, steps int) (violation string, trace []string) {
 						env[v] = "renamed" + fmt.Sprint(s) + "_" + fmt.Sprint(len(env))
 					}
 				}
+				// one call may rename some variables and give values to others: numbers of one Go
+				// type for all of them, whichever the item accepts
+				numeric := []interface{}{int(1 + s%50), float64(s) + 0.5, s%2 == 0, uint8(s % 200)}[r.Intn(4)]
+				for _, v := range vars {
+					if _, ok := env[v]; !ok && !strings.HasPrefix(v, "...") && r.Intn(2) == 0 {
+						env[v] = numeric
+					}
+				}
 				var it2 ast.ItemNode
 				if pan, _ := safely(func() { it2 = it.FillVariables(env) }); !pan {
 					items = append(items, it2)
@@ -579,6 +604,64 @@ func runHistory(r *rand.Rand, steps int) (violation string, trace []string) {
 
 func suiteC11(c *Ctx) []Suite {
 	return []Suite{
+		{Name: "alias/templates-filled-again", Gen: func(c *Ctx) []Case {
+			// one template, filled several times with tables that rename some variables and give
+			// values to others: no earlier result and not the template may change
+			var out []Case
+			for i := 0; i < c.N(300); i++ {
+				k := arrayKinds[c.R.Intn(len(arrayKinds))]
+				n := genArray(c.R, &GenOpt{MaxSlots: 5, PVar: 0.7, names: &nameGen{}}, k.k, k.w)
+				if i%4 == 0 {
+					n = &Node{Kind: "L", Slots: []Slot{{Child: n}, {Child: &Node{Kind: "A", Str: []byte("t")}}}}
+				}
+				var tmpl ast.ItemNode
+				if pan, _ := safely(func() { tmpl = n.Build() }); pan || len(tmpl.Variables()) < 2 {
+					continue
+				}
+				res := ""
+				first := showItem(tmpl)
+				type kept struct {
+					it   ast.ItemNode
+					show string
+				}
+				var results []kept
+				for round := 0; round < 6 && res == ""; round++ {
+					env := map[string]interface{}{}
+					var num interface{}
+					switch k.k {
+					case "F":
+						num = float64(round) + 1.25
+					case "BO":
+						num = round%2 == 0
+					default:
+						num = 1 + round
+					}
+					for vi, v := range tmpl.Variables() {
+						switch (vi + round + c.R.Intn(2)) % 3 {
+						case 0:
+							env[v] = fmt.Sprintf("r%d_%d", round, vi)
+						case 1:
+							env[v] = num
+						}
+					}
+					var it2 ast.ItemNode
+					if pan, _ := safely(func() { it2 = tmpl.FillVariables(env) }); pan {
+						continue
+					}
+					results = append(results, kept{it2, showItem(it2)})
+					if now := showItem(tmpl); now != first {
+						res = "the template changed when it was filled: " + firstDiff(now, first)
+					}
+					for q, kp := range results {
+						if now := showItem(kp.it); now != kp.show {
+							res = fmt.Sprintf("the result of fill %d changed when the template was filled again (fill %d): %s", q, round, firstDiff(now, kp.show))
+						}
+					}
+				}
+				out = append(out, Case{Detail: "template " + n.Proto() + " filled six times", Oracle: res, Nontrivial: true, Tags: []string{"refill:" + k.k}})
+			}
+			return out
+		}},
 		{Name: "alias/histories", Gen: func(c *Ctx) []Case {
 			var out []Case
 			for i := 0; i < c.N(400); i++ {
